@@ -4,7 +4,7 @@ From Grex Require Import Base.Str Model.Config Model.Cluster Model.Dfa Model.Exp
 From Grex Require Import Proofs.RepInv Proofs.Provenance Proofs.ProvenanceInst Proofs.PropsGlue.
 From Grex Require Import Engine.Syntax Engine.Parse.
 From Grex Require Import Proofs.Spec Proofs.PrintParseNum Proofs.PrintParseDefs Proofs.PrintParseXTok
-  Proofs.PropsGlueE2E.
+  Proofs.PropsGlueE2E Proofs.BracesThresholds.
 
 (* every grapheme g of a literal of the final expression (lit_in g e): either it is not
    repeated, or its upper bound exceeds min_rep and its unit has at least min_len characters *)
@@ -61,8 +61,54 @@ Proof.
   exists r. split; [exact Hr|exact Hrep].
 Qed.
 
+(* the counted repetitions of the parsed output and the thresholds (min_len_rast r: the minimal
+   number of characters of a match of r, Proofs/BracesThresholds.v): a repetition that is not
+   the `?` / `*` of the expression (lo <> 0) is only written when repetition conversion is on,
+   its upper count exceeds minimum_repetitions, and every match of its operand has at least
+   minimum_substring_length characters; there is no open-ended {n,}; and without repetition
+   conversion there is no counted repetition at all *)
+Theorem C13_build_braces : forall isd is_ws c db sc ws s,
+  ws <> [] ->
+  Forall (Forall scalar) ws ->
+  (forall s0, In s0 ws -> Forall scalar (lower' db s0)) ->
+  oracle_ok db (normalise c db ws) ->
+  printable c -> (if f_verbose c then ws_x is_ws else ws_ok is_ws) ->
+  build isd c db sc ws = Some s ->
+  exists r, parse is_ws s = Some (mkF (f_ci c) (f_verbose c), r)
+    /\ (forall body lo hi, rast_sub (RRep body lo (Some hi)) r -> lo <> 0%N ->
+          f_rep c = true /\ (min_rep c < hi)%N /\ N.to_nat (min_len c) <= min_len_rast body)
+    /\ (forall body lo, rast_sub (RRep body lo None) r -> lo = 0%N)
+    /\ (f_rep c = false -> forall body lo hi, rast_sub (RRep body lo hi) r -> lo = 0%N).
+Proof. exact build_braces_thresholds. Qed.
+
+(* the same with the shape of the bounds (C13_braces_shape) in one statement *)
+Theorem C13_build_braces_full : forall isd is_ws c db sc ws s,
+  ws <> [] ->
+  Forall (Forall scalar) ws ->
+  (forall s0, In s0 ws -> Forall scalar (lower' db s0)) ->
+  oracle_ok db (normalise c db ws) ->
+  printable c -> (if f_verbose c then ws_x is_ws else ws_ok is_ws) ->
+  build isd c db sc ws = Some s ->
+  exists r, parse is_ws s = Some (mkF (f_ci c) (f_verbose c), r)
+    /\ forall body lo hi, rast_sub (RRep body lo hi) r ->
+         (lo = 0%N /\ (hi = None \/ hi = Some 1%N))
+         \/ exists b, hi = Some b /\ (1 <= lo)%N /\ (lo <= b)%N /\ ~ (lo = 1%N /\ b = 1%N)
+              /\ f_rep c = true /\ (min_rep c < b)%N
+              /\ N.to_nat (min_len c) <= min_len_rast body.
+Proof. exact build_braces_full. Qed.
+
+(* the invariant behind it, at every nesting depth, for the graphemes of the final expression *)
+Theorem C13_thresholds_deep : forall c db ws sc e g,
+  Pipeline.final_expr c (grapheme_clusters c db ws) sc = Some e -> lit_in g e ->
+  thr_lbl c g /\ Forall (thr_ok c) (g_reps g)
+  /\ (f_rep c = false -> (g_min g = 1%N /\ g_max g = 1%N) /\ g_reps g = []).
+Proof. exact final_expr_thr_deep_lit. Qed.
+
 Print Assumptions C13_thresholds.
 Print Assumptions C13_no_braces.
 Print Assumptions C13_clusters.
 Print Assumptions C13_thr_ok_unfold.
 Print Assumptions C13_braces_shape.
+Print Assumptions C13_build_braces.
+Print Assumptions C13_build_braces_full.
+Print Assumptions C13_thresholds_deep.
